@@ -73,7 +73,9 @@ def _any_symbolic(x, depth=0) -> bool:
 
 
 def _fallback(self, other):
-    return self.__mod__(deep_realize(other))
+    real_self, real_other = deep_realize(self), deep_realize(other)
+    with NoTracing():
+        return str.__mod__(real_self, real_other)
 
 
 def _fmt(self, other):
@@ -114,14 +116,15 @@ def _fmt(self, other):
         ai += 1
         with NoTracing():
             sym = _is_symbolic(a)
-            is_str = isinstance(a, str) or type(a).__name__ in ("LazyIntSymbolicStr", "SeqBasedSymbolicStr")
         if not sym:
             if kind == "s":
                 out = out + str(a)
             elif kind == "r":
                 out = out + repr(a)
             else:
-                out = out + ("%d" % a)
+                with NoTracing():
+                    rendered = "%d" % a
+                out = out + rendered
         elif isinstance(a, str) and kind == "s":
             out = out + a
         elif isinstance(a, (int, float)) and not isinstance(a, bool):
@@ -136,7 +139,7 @@ core._PATCH_REGISTRATIONS[str.__mod__] = _fmt
 # ---------------------------------------------------------------- BV xor
 
 
-def _xor_handler(a, b):
+def _xor_handler(op, a, b):
     with NoTracing():
         space = context_statespace()
         sa = a.var if hasattr(a, "var") else z3.IntVal(int(a))
